@@ -312,6 +312,11 @@ class SymInt:
 # --------------------------------------------------------------------------
 # SymReal
 # --------------------------------------------------------------------------
+def _sym_isclose(a, b, rtol=1e-05, atol=1e-08, equal_nan=False):  # pylint: disable=unused-argument
+    """numpy.isclose for scalar symbolic arguments: |a - b| <= atol + rtol * |b| (its documented definition)"""
+    return abs(a - b) <= atol + rtol * abs(b)
+
+
 class SymReal:
     __slots__ = ("t",)
     # make numpy defer to our reflected operators instead of broadcasting
@@ -319,6 +324,17 @@ class SymReal:
 
     def __init__(self, t):
         self.t = t
+
+    def __array_function__(self, func, types, args, kwargs):
+        # numpy functions called with a symbolic scalar as a direct argument: isclose by its definition,
+        # everything else as numpy would do without the dispatch
+        import numpy as _np
+        if func is _np.isclose:
+            return _sym_isclose(*args, **kwargs)
+        impl = getattr(func, "_implementation", None)
+        if impl is None:
+            return NotImplemented
+        return impl(*args, **kwargs)
 
     def _o(self, o):
         r = zreal(o)
